@@ -55,6 +55,45 @@ PROPS['C15'] = {
     'shrink_budget': 300,
 }
 
+CFG_STUB = ['PIXMAN_DISABLE environment variable (set by the simulator before the real _pixman_choose_implementation())', 'pixel storage from the simulator arena', 'accessor callbacks']
+
+PROPS['C02'] = {
+    'level': 'exploration',
+    'passes': [{'variant': 'opt', 'binary': 'cfg', 'runs': [16000, 600000], 'deadline_s': [150, 2400]}],
+    'rule': ("one evaluation = one seeded scene (2 destinations, 3-5 sources/masks with transforms, filters, repeats, clips, alpha maps) and 4-10 drawing "
+             "requests (composite32 over all 53 operators weighted to those with fast paths, fill_boxes/rectangles, fill, blt, trapezoids, triangles, glyph runs), "
+             "executed under ALL 32 delegation chains (every subset of {fast,mmx,sse2,ssse3} x wholeops), each on a fresh thread from identical buffers at a "
+             "seed-chosen alignment; every destination is compared with the general-only chain on its defined bits.  Non-trivial = every chain drew at least once; "
+             "distinct = distinct event hashes (all per-op destination digests of all chains)"),
+    'real_vs_stub': {'real': IMG_REAL, 'stub_or_simulated': CFG_STUB},
+    'assumptions': COMMON_ASSUME + ["unused x bits of a pixel and alpha-map don't-care bits are not compared, exactly as test/utils.c masks them", "dither is never set (not in the property's quantifier)"],
+    'probes': ['drawing_requests_x_chains'],
+}
+PROPS['C19'] = {
+    'level': 'exploration',
+    'passes': [{'variant': 'opt', 'binary': 'cfg', 'runs': [16000, 600000], 'deadline_s': [150, 2400]}],
+    'rule': ("one evaluation = one seeded scenario of 4-12 pixman_fill / pixman_blt calls (bpp 1,4,8,16,24,32,128; every x/width residue, heights 1-5, padded and negative "
+             "strides, seed-chosen alignment) or fill_boxes / fill_rectangles calls (any operator, 16-bit colours, any destination format, multi-rectangle clips, boxes "
+             "partly outside), executed under ALL 32 chains next to a twin machine that applies the reference meaning (bit-exact set/copy; compositing a solid image over "
+             "each box on the same chain); buffers compared after every call.  Non-trivial = every chain executed at least one request; distinct = distinct event hashes"),
+    'real_vs_stub': {'real': IMG_REAL, 'stub_or_simulated': CFG_STUB},
+    'assumptions': COMMON_ASSUME + ["the 25-line bit-by-bit fill/copy reference is trusted", "fill_boxes is compared with compositing on the same chain (differential), so a change of the compositing arithmetic itself is invisible here"],
+    'probes': ['drawing_requests_x_chains'],
+}
+PROPS['C04'] = {
+    'level': 'exploration',
+    'passes': [{'variant': 'asan', 'binary': 'cfg', 'runs': [12000, 400000], 'deadline_s': [150, 2400]}],
+    'crash_property': 'C04',
+    'rule': ("one evaluation = one seeded scene biased to the geometry the property lists (1-pixel and >32767-pixel images, request rectangles partly or wholly outside, "
+             "offsets near +-2^15, extreme scale / translation / near-singular projective transforms, convolution kernels, trapezoids with endpoints at +-32767.99, glyphs half "
+             "outside, fill boxes beyond the destination) executed under the general-only chain plus 5 seed-chosen chains; every image buffer is exact-size against a PROT_NONE "
+             "page with poisoned, checked canaries on the other side; accessor images check every callback against the storage of the participating images; ASan watches pixman's "
+             "own heap and stack.  Pixel values are not compared.  Non-trivial = every chain run drew at least once; distinct = distinct event hashes"),
+    'real_vs_stub': {'real': IMG_REAL, 'stub_or_simulated': CFG_STUB},
+    'assumptions': COMMON_ASSUME + ["inline-asm MMX loops are not ASan-instrumented: for them only the guard page and the canaries detect a stray access", "a stray read of less than 64 bytes on the slack side of a buffer is only caught where ASan instruments the access"],
+    'probes': ['drawing_requests_x_chains'],
+}
+
 MANIFEST_TEXT = {}
 MANIFEST_TEXT['C06'] = {
     'technique': 'deterministic simulation: seeded operation histories with allocation-fault events against the real region code; canonical-form invariants + point-set equality oracle after every step',
@@ -70,4 +109,23 @@ MANIFEST_TEXT['C15'] = {
                    "the quick tier samples positions.  Scenarios (inputs) are sampled"),
     'level_note': "trusts the allocator wrapper's live table and the lock-step comparison; ASan keeps memory errors visible; allocation sites that no scenario reaches are listed as gaps in the evidence",
     'design_ref': 'DESIGN.md section 4, C15',
+}
+
+MANIFEST_TEXT['C02'] = {
+    'technique': 'deterministic simulation over configurations: every seeded request list executed under all 32 implementation chains (built by the real selection code) and compared bit for bit with the general path',
+    'level_text': "the configuration dimension is enumerated exhaustively (32 chains) for every sampled request list; requests are sampled",
+    'level_note': "chains are those this CPU offers (mmx, sse2, ssse3); equality is on defined bits as in test/utils.c",
+    'design_ref': 'DESIGN.md section 4, C02',
+}
+MANIFEST_TEXT['C19'] = {
+    'technique': 'deterministic simulation over configurations: fill/blt against a bit-exact reference and fill_boxes/rectangles against solid compositing, on all 32 chains',
+    'level_text': "configuration dimension exhaustive per scenario (which chains own a fill/blt primitive decides success or FALSE); geometry, depth, alignment, colour and operator sampled",
+    'level_note': "independent 25-line reference for raw fill/copy; differential oracle (same chain) for the compositing clause",
+    'design_ref': 'DESIGN.md section 4, C19',
+}
+MANIFEST_TEXT['C04'] = {
+    'technique': 'deterministic simulation over configurations with a monitored storage seam: guard pages, poisoned canaries, accessor interval checks and ASan while seeded extreme-geometry requests run on seed-chosen chains',
+    'level_text': "memory-safety invariant monitored on every sampled request under 6 of the 32 chains per run (all chains over a batch); inputs sampled with bias to the listed edge geometry",
+    'level_note': "reads by non-instrumented inline assembly are only caught by the guard page side",
+    'design_ref': 'DESIGN.md section 4, C04',
 }
